@@ -26,7 +26,7 @@ theorem tr_recv (hl : ∀ s, (cfg.lower s).length = s.length) (n : Nat) (ih : Tr
   | unit => have := H.fa; unfold Ty.TF at this; exact absurd this id
   | data => have := H.fa; unfold Ty.TF at this; exact absurd this id
   | richData => have := H.fa; unfold Ty.TF at this; exact absurd this id
-  | tuple _ _ => have := H.fa; unfold Ty.TF at this; exact absurd this id
+  | tuple ts g => exact recv_to_asg cfg sfh _ c hc (tr_tuple cfg sfh n ih ts g b c hw H h1 h2')
   | struct _ => have := H.fa; unfold Ty.TF at this; exact absurd this id
   | iterable _ => have := H.fa; unfold Ty.TF at this; exact absurd this id
   | scalar => exact tr_scalar cfg sfh n ih b c hw H hc h1 h2
@@ -93,7 +93,6 @@ theorem recvNU_cases (a nb : Ty) (fa : a.TF) (hnb : asg cfg sfh nb .undef = true
   | unit => unfold Ty.TF at fa; exact absurd fa id
   | data => unfold Ty.TF at fa; exact absurd fa id
   | richData => unfold Ty.TF at fa; exact absurd fa id
-  | tuple _ _ => unfold Ty.TF at fa; exact absurd fa id
   | struct _ => unfold Ty.TF at fa; exact absurd fa id
   | iterable _ => unfold Ty.TF at fa; exact absurd fa id
   | variant as =>
@@ -152,8 +151,7 @@ theorem accepts_any : ∀ (n : Nat) (a : Ty), a.w ≤ n → a.TF → asg cfg sfh
       | unit => unfold Ty.TF at fa; exact absurd fa id
       | data => unfold Ty.TF at fa; exact absurd fa id
       | richData => unfold Ty.TF at fa; exact absurd fa id
-      | tuple _ _ => unfold Ty.TF at fa; exact absurd fa id
-      | struct _ => unfold Ty.TF at fa; exact absurd fa id
+          | struct _ => unfold Ty.TF at fa; exact absurd fa id
       | iterable _ => unfold Ty.TF at fa; exact absurd fa id
       | variant as =>
         unfold Ty.TF at fa; simp only [Ty.w] at hw
